@@ -1018,6 +1018,25 @@ impl Debugger {
         read_memory_by_pid(self.debugee.tracee_ctl().proc_pid(), addr, read_n).map_err(Ptrace)
     }
 
+    /// Read program code from the debugee memory: like [`Self::read_memory`], but bytes that the
+    /// debugger replaced with trap instructions (enabled breakpoints) are returned with their
+    /// original values.
+    ///
+    /// # Arguments
+    ///
+    /// * `addr`: address in debugee address space where reads
+    /// * `read_n`: read byte count
+    pub fn read_original_code(&self, addr: usize, read_n: usize) -> Result<Vec<u8>, Error> {
+        let mut bytes = self.read_memory(addr, read_n)?;
+        for brkpt in self.breakpoints.active_breakpoints() {
+            let brkpt_addr = brkpt.addr.as_usize();
+            if brkpt.is_enabled() && brkpt_addr >= addr && brkpt_addr - addr < bytes.len() {
+                bytes[brkpt_addr - addr] = brkpt.saved_data.get();
+            }
+        }
+        Ok(bytes)
+    }
+
     /// Write sizeof(uintptr_t) bytes in debugee address space.
     /// Note that little endian byte order will be used when writing.
     ///
